@@ -4,7 +4,7 @@
     specification (Spec/Ps35.v); [write_dataset], [enc_prim_element], [enc_prim],
     [calc_byte_len] are the models of the dicom-rs code. *)
 From DicomV Require Import Base.Endian Model.Vr Model.Header Model.Prim Model.Dataset Model.Writer Spec.Ps35
-  Proofs.HeaderP Proofs.PrimP Proofs.WriterP Proofs.ValidP Proofs.FlatP.
+  Proofs.HeaderP Proofs.PrimP Proofs.WriterP Proofs.ValidP Proofs.FlatP Proofs.NestedP.
 Open Scope N_scope.
 
 (** Every byte count returned by [BasicEncode::encode_primitive] equals the
@@ -74,6 +74,24 @@ Theorem C04_spec_valid_flat : forall c is_sq es,
   all_cprim_ok c is_sq es -> ps35_valid c is_sq (canon_encode c es) = true.
 Proof. exact ps35_valid_flat. Qed.
 
+(** Nested data sets, default strategy (SetUndefined), any depth: the bytes
+    the writer produces are exactly the direct recursive description
+    [enc_trees]: a sequence is its header with undefined length, each item an
+    undefined-length item header, its elements and an item delimiter, then the
+    sequence delimiter; encapsulated pixel data is header, offset-table item,
+    fragment items with their explicit even lengths, sequence delimiter; no
+    writer state leaks between elements (mutual structural induction over
+    elements / element lists / item lists). This is the "W" half of the nested
+    theorem; that [ps35_valid] accepts these streams is NOT proved. *)
+Theorem C04_write_nested_partial : forall c es,
+  Forall regular es -> write_dataset c false false es = enc_trees (elems_size es) c es.
+Proof. exact write_dataset_nested. Qed.
+
+Theorem C04_nested_sequence_shape : forall f c t v l its,
+  enc_tree (S f) c (ESeq t v l its) =
+  obind (st_enc_header c t SQ undef) (fun h => obind (enc_items f c its) (fun body => Ok (h ++ body ++ enc_seq_delim c))).
+Proof. exact enc_tree_seq. Qed.
+
 (** Full statement (nested data sets), kept visible; proved above for flat data sets only. *)
 Definition C04_valid_full_statement : Prop :=
   forall c nochange inv is_sq (wf_dataset : codec -> bool -> list elem -> Prop) es b,
@@ -107,3 +125,5 @@ Print Assumptions C04_element.
 Print Assumptions C04_pad_byte.
 Print Assumptions C04_valid_flat.
 Print Assumptions C04_spec_valid_flat.
+Print Assumptions C04_write_nested_partial.
+Print Assumptions C04_nested_sequence_shape.
